@@ -9,6 +9,12 @@ COMMON_ASSUMPTIONS = [
     "std HashMap/String/Vec behave as vstd specifies; obeys_key_model::<String>() and builds_valid_hashers::<RandomState>() are assumed "
     "as preconditions (hash_ok)",
     "Z3 (shipped with Verus) and the Verus VC generator are trusted",
+    "machine arithmetic is NOT treated as mathematical: Verus checks every + - * and cast of the extracted code for overflow / underflow; "
+    "Kani keeps rustc's overflow checks (debug assertions)",
+    "no unsafe code occurs in the functions under contract; external (trusted-spec) functions are listed one by one in coverage.trusted_base "
+    "(`EXTRACTION DROPS: fn ... body NOT verified`)",
+    "the bounded native sweep is a stand-in for code outside both verifiers (iterator pipelines, dispatcher arms); it is labelled bounded and is not "
+    "part of obligations/discharged",
 ]
 
 STORE_FNS = ["Database::get_value", "Database::set_value_version", "Database::set_value_as_ok", "Database::set_value",
